@@ -1,6 +1,7 @@
 import DfolsVerif.Accept.IterAcc
 import DfolsVerif.Accept.DiagAcc
 import DfolsVerif.Driver.Proto
+import DfolsVerif.Proofs.DiagTable
 namespace Dfols.IterDrv
 open Dfols.Proto Dfols.IterAcc
 
@@ -36,7 +37,23 @@ def runDiag (maxNpt : Nat) (evs : List DiagAcc.DEv) : String :=
       | .error m => s!"rej@{i}:{m}"
   go {} 0 evs
 
-/-- `iter <tok>*`  |  `diag <maxNpt> <tok>*` -/
+/-- the DiagnosticInfo state machine of Proofs/DiagTable.lean on the columns GENERATED from `__init__`: `s` = save,
+    `u:<key>` = an `update_*` assignment of the last element of column <key> -/
+def parseDOp (t : String) : Option DiagTable.Op :=
+  if t = "s" then some .save
+  else match t.splitOn ":" with
+    | ["u", k] => some (.update k)
+    | _ => none
+
+def runDOps (ops : List DiagTable.Op) : String :=
+  match DiagTable.run (DiagTable.init Gen.diagInitKeys) ops with
+  | none => "fail"
+  | some s =>
+    let lens := s.cols.map (·.2)
+    let rect := lens.all (· == s.its.length)
+    s!"ok rows={s.its.length} rect={rect} ncols={s.cols.length} its={s.its == List.range s.its.length}"
+
+/-- `iter <tok>*`  |  `diag <maxNpt> <tok>*`  |  `dops <tok>*` -/
 def handle (ts : List String) : String :=
   match ts with
   | "iter" :: rest =>
@@ -47,5 +64,9 @@ def handle (ts : List String) : String :=
     match m.toNat?, rest.mapM parseDEv with
     | some mx, some evs => runDiag mx evs
     | _, _ => "bad-op"
+  | "dops" :: rest =>
+    match rest.mapM parseDOp with
+    | some ops => runDOps ops
+    | none => "bad-op"
   | _ => "bad-op"
 end Dfols.IterDrv
